@@ -3376,7 +3376,12 @@ func (p *parser) parseForPhraseStmtPart(lhs []ast.Expr) *ast.ForPhraseStmt {
 	case 2:
 		stmt.Key, stmt.Value = p.toIdent(lhs[0]), p.toIdent(lhs[1])
 	default:
-		log.Panicln("TODO: parseForPhraseStmt - too many variables, 1 or 2 is required")
+		if len(lhs) > 2 {
+			p.error(lhs[2].Pos(), "too many variables in for phrase, 1 or 2 is required")
+			stmt.Key, stmt.Value = p.toIdent(lhs[0]), p.toIdent(lhs[1])
+		} else {
+			p.errorExpected(p.pos, "for phrase variable", 2)
+		}
 	}
 	return stmt
 }
